@@ -3,15 +3,16 @@
 (reads /tmp/seed/<ID>/out/{patch.diff,demo.py,NOTES.md}, /tmp/seedlog/<ID>.txt and tools/seed_notes.json)"""
 import json, os, re, shutil, sys
 pid = sys.argv[1]
-src = '/tmp/seed/%s/out' % pid
-dst = '/verif/seeded/%s' % pid
+rnd = sys.argv[2] if len(sys.argv) > 2 else ''
+src = '/tmp/seed%s/%s/out' % (rnd, pid)
+dst = '/verif/seeded/%s%s' % (pid, '-' + rnd if rnd else '')
 os.makedirs(dst, exist_ok=True)
 for f in ('patch.diff', 'demo.py', 'NOTES.md'):
     if os.path.exists(os.path.join(src, f)):
         shutil.copy(os.path.join(src, f), os.path.join(dst, f))
-log = open('/tmp/seedlog/%s.txt' % pid).read()
+log = open('/tmp/seedlog%s/%s.txt' % (rnd, pid)).read()
 m = re.search(r"RESULT (\S+) pinned='([^']*)' demo_with=(\d+) demo_clean=(\d+) quick=(\S+) thorough=(\S+)", log)
-notes = json.load(open('/verif/tools/seed_notes.json')).get(pid, {})
+notes = json.load(open('/verif/tools/seed_notes%s.json' % rnd)).get(pid, {})
 viol = [l.strip() for l in log.splitlines() if l.startswith('  ') and 'VIOLATION' not in l][:2]
 meta = {
     'property': pid,
